@@ -91,8 +91,12 @@ def large_sets(fb, tier, seed, rep, stats):
     rnd = random.Random(seed + 11)
     for trial in range(60 if tier == 'quick' else 600):
         m = rnd.randint(6, 14)
-        kind = rnd.choice(['uniform', 'random', 'clustered', 'permuted', 'one-sided'])
-        if kind == 'uniform':
+        kind = rnd.choice(['uniform', 'random', 'clustered', 'permuted', 'one-sided', 'tight-far'])
+        if kind == 'tight-far':
+            # a tight cluster of nodes seen from far away: the weights are huge but perfectly determined by the NODE DIFFERENCES
+            m = rnd.randint(3, 8)
+            x = rnd.choice([0.5, -0.3, 2.0]) + np.array([rnd.uniform(-1, 1) for _ in range(m)]) * 10.0 ** -rnd.choice([4, 5, 6])      # not dyadic: x - x0 rounds
+        elif kind == 'uniform':
             x = np.arange(m) * 0.5 - 1.0
         elif kind == 'random':
             x = np.sort(np.array([rnd.uniform(-2, 2) for _ in range(m)]))
@@ -102,9 +106,9 @@ def large_sets(fb, tier, seed, rep, stats):
             x = np.array(rnd.sample(list(np.arange(m) * 0.25), m))
         else:
             x = np.arange(m) * 0.125
-        if np.min(np.abs(np.diff(np.sort(x)))) < 1e-3:
+        if np.min(np.abs(np.diff(np.sort(x)))) < (1e-3 if kind != 'tight-far' else 1e-9):
             continue
-        x0 = rnd.choice([x[m // 2], x[0] - 0.3, 0.5 * (x[1] + x[2]), x[-1] + 1.0, 0.1])
+        x0 = rnd.choice([x[m // 2], x[0] - 0.3, 0.5 * (x[1] + x[2]), x[-1] + 1.0, 0.1]) if kind != 'tight-far' else rnd.choice([3.5, -40.0, 1000.0, 1.5])
         W = lagrange_weights_exact(x, x0)
         name = '%s nodes, size %d, x0=%r' % (kind, m, float(x0))
         for n in sorted({m - 1, rnd.randint(0, m - 1), rnd.randint(0, m - 1)}):
